@@ -663,7 +663,8 @@ class Workspace(AbstractContextManager):
         parent = entity.parent
 
         if hasattr(entity, "children"):
-            for child in entity.children:
+            # iterate over a copy: removing a child shortens the list of children
+            for child in list(entity.children):
                 self.remove_entity(child)
 
         parent.remove_children([entity])
